@@ -19,6 +19,8 @@ import (
 	authtypes "github.com/cosmos/cosmos-sdk/x/auth/types"
 	vestingtypes "github.com/cosmos/cosmos-sdk/x/auth/vesting/types"
 	banktypes "github.com/cosmos/cosmos-sdk/x/bank/types"
+	govtypes "github.com/cosmos/cosmos-sdk/x/gov/types"
+	govv1 "github.com/cosmos/cosmos-sdk/x/gov/types/v1"
 	minttypes "github.com/cosmos/cosmos-sdk/x/mint/types"
 	slashingtypes "github.com/cosmos/cosmos-sdk/x/slashing/types"
 	stakingtypes "github.com/cosmos/cosmos-sdk/x/staking/types"
@@ -55,6 +57,7 @@ type World struct {
 	NoCall      bool          `json:"no_call,omitempty"`
 	ExtraEIPs   []int64       `json:"extra_eips,omitempty"`
 	NoInflation bool          `json:"no_inflation,omitempty"`
+	GovFast     bool          `json:"gov_fast,omitempty"`   // governance with a 2 s voting period and a 1-unit minimum deposit
 	ValTokens   string        `json:"val_tokens,omitempty"` // bonded tokens per validator (default 1e18)
 }
 
@@ -350,6 +353,15 @@ func (w World) BuildGenesis(cdc codec.Codec, def map[string]json.RawMessage) map
 	evmGen.Params.ExtraEIPs = w.ExtraEIPs
 	evmGen.Accounts = evmAccs
 	gs[evmtypes.ModuleName] = cdc.MustMarshalJSON(evmGen)
+	if w.GovFast {
+		var govGen govv1.GenesisState
+		cdc.MustUnmarshalJSON(gs[govtypes.ModuleName], &govGen)
+		vp, evp := 2*time.Second, time.Second
+		govGen.Params.VotingPeriod, govGen.Params.ExpeditedVotingPeriod = &vp, &evp
+		govGen.Params.MinDeposit = sdk.NewCoins(sdk.NewCoin(Denom, sdkmath.NewInt(1)))
+		govGen.Params.ExpeditedMinDeposit = sdk.NewCoins(sdk.NewCoin(Denom, sdkmath.NewInt(2)))
+		gs[govtypes.ModuleName] = cdc.MustMarshalJSON(&govGen)
+	}
 
 	fmGen := feemarkettypes.DefaultGenesisState()
 	fmGen.Params.BaseFee = mustInt(w.BaseFee)
